@@ -48,11 +48,15 @@ def load():
     for need in PARSER_FUNCS:
         if par.find(need) is None:
             raise Inconclusive("function %s not found in the MIR dump of dora-parser" % need)
-    return pos, par
+    # std iterator adaptors re-implemented as MIR (engines/drivers/src/adaptors.rs): reached through the
+    # interpreter's std redirects when the code under test uses filter/map/count/any/all/for_each
+    import os
+    drv = P.parse_file(common.drivers_mir_dump(), os.path.join(common.WORK, "drivers-src"))
+    return pos, par, drv
 
 
 def interp(progs):
-    return TextInterp(progs[0], MODELS, extra_progs=[progs[1]])
+    return TextInterp(progs[0], MODELS, extra_progs=list(progs[1:]))
 
 
 # ------------------------------------------------------------------------------------------
